@@ -359,7 +359,16 @@ pub fn doc_opts_for(tier: Tier, rng: &mut Rng) -> DocOpts {
     d.max_nodes = *rng.pick(&[3usize, 8, 20, 40]);
     d.pay.boundary_pct = *rng.pick(&[0u64, 5, 20]);
     d.pay.max_len = match tier {
-        Tier::Quick => *rng.pick(&[24usize, 300, 300, 16385]),
+        Tier::Quick => {
+            if rng.chance(1, 40) {
+                // a few elements of 16 KiB and 64 KiB(+-): streams longer than the default buffer, elements larger than it
+                d.pay.boundary_pct = 50;
+                d.max_nodes = d.max_nodes.min(10);
+                70_000
+            } else {
+                *rng.pick(&[24usize, 300, 300, 16385])
+            }
+        }
         Tier::Thorough => {
             if rng.chance(1, 300) {
                 // the 2^21 size-field boundary: rare, a run with such payloads costs milliseconds
